@@ -38,6 +38,10 @@ pub struct ChildSpec {
     /// other members of the child's process group (they react to signals like the leader,
     /// but only receive group-directed signals/kills)
     pub grandchildren: u8,
+    /// slow death ("uninterruptible sleep", frozen cgroup): a successful kill takes effect this many ms later;
+    /// until then the process is alive and wait() does not return
+    #[serde(default)]
+    pub kill_lag: u64,
 }
 
 impl Default for ChildSpec {
@@ -50,6 +54,7 @@ impl Default for ChildSpec {
             fail_kill: false,
             fail_wait: false,
             grandchildren: 0,
+            kill_lag: 0,
         }
     }
 }
@@ -281,7 +286,11 @@ impl TokioChildWrapper for SimChild {
             let c = &mut r.world.children[id as usize];
             let alive = !matches!(c.death, Some((at, _)) if at <= now);
             if alive {
-                c.death = Some((now, 1009));
+                let at = now + c.spec.kill_lag;
+                // (a death already due earlier stays)
+                if !matches!(c.death, Some((old, _)) if old <= at) {
+                    c.death = Some((at, 1009));
+                }
             }
             if c.group {
                 c.members_alive = 0;
